@@ -1,12 +1,13 @@
 #!/usr/bin/env python3
 """Confirm every seeded change under SRC (out_Cxx/m1, m2) and record it under
 ./seeded/<id>/: patch.diff, demo.py, notes.md, meta.json (what was run, which
-checks caught it).  Usage: tools/seed_all.py /tmp/seedwork [Cxx ...]"""
+checks caught it).  Usage: tools/seed_all.py /tmp/seedwork [id-prefix] [Cxx ...]"""
 import json, os, re, shutil, subprocess, sys
 
 here = os.path.dirname(os.path.dirname(os.path.abspath(__file__)))
 src = sys.argv[1]
-only = set(sys.argv[2:])
+prefix = sys.argv[2] if len(sys.argv) > 2 else ''
+only = set(sys.argv[3:])
 # which other checks to try when the property's own check does not fire
 CROSS = {'C02': ['C01', 'C06'], 'C07': ['C01', 'C06'], 'C03': ['C09'], 'C04': ['C09'],
          'C11': ['C09'], 'C01': ['C06'], 'C05': ['C06'], 'C08': ['C07'], 'C14': ['C02'], 'C17': ['C09']}
@@ -19,7 +20,7 @@ for d in sorted(os.listdir(src)):
         md = os.path.join(src, d, mm)
         if not os.path.exists(os.path.join(md, 'patch.diff')):
             continue
-        sid = '%s-%s' % (pid, mm)
+        sid = '%s-%s%s' % (pid, prefix, mm)
         out = os.path.join(here, 'seeded', sid)
         os.makedirs(out, exist_ok=True)
         for f in ('patch.diff', 'demo.py', 'notes.md'):
